@@ -13,7 +13,7 @@ import importlib
 import inspect
 import types
 
-_state = {'depth': 0, 'ctx': None, 'prop': None, 'calls': 0, 'installed': []}
+_state = {'depth': 0, 'ctx': None, 'prop': None, 'calls': 0, 'installed': [], 'exempt': {}}
 
 
 def _snap(x, depth=0):
@@ -97,6 +97,12 @@ def _wrap(fn, label, is_method):
             ctx = st['ctx']
             for kind, name, obj, sp in snaps:
                 now = obj.__dict__.get('_obj') if kind == 'receiver' else obj
+                if kind == 'arg' and st['exempt'].get(f'{label}:{name}') == 'may-add-entries' and sp[0] == 'pd':
+                    # documented exemption of the contract file: the function may append entries to this Series; the entries it was given must be unchanged
+                    try:
+                        now = now.loc[sp[1].index]
+                    except Exception:   # noqa
+                        pass
                 if not _same(sp, now):
                     if kind == 'receiver':
                         ctx.fail(f"{st['prop']}:receiver-modified:{label}", f"{label}(...) changed the data the receiver was created from (its `_obj`): a second evaluation on the same object sees other values", None)
@@ -106,10 +112,11 @@ def _wrap(fn, label, is_method):
     return guarded
 
 
-def install(ctx, prop, modules):
-    """wrap the public callables of `modules` (names as in anchors: 'pylife.strength.miner'); returns the number of wrapped callables"""
+def install(ctx, prop, modules, exempt=None):
+    """wrap the public callables of `modules` (names as in anchors: 'pylife.strength.miner'); returns the number of wrapped callables.
+    exempt: {'<label>:<argument>': 'may-add-entries'} stated (with the reason) in the contract file as GUARD_EXEMPT"""
     uninstall()
-    _state.update(ctx=ctx, prop=prop, depth=0, calls=0)
+    _state.update(ctx=ctx, prop=prop, depth=0, calls=0, exempt=dict(exempt or {}))
     n = 0
     for mname in modules:
         try:
